@@ -169,6 +169,8 @@ Definition colvar_init (restart_out_freq : Z) (c : cvconf) : initres cvstate :=
         let '(l, el) := getZ (parse_int TSize (c_cflen c)) (c_u_cflen c) 1000 in
         let '(s, es) := getZ (parse_int TSize (c_cfstride c)) (c_u_cfstride c) 1 in
         if s =? 0 then (l, s, o, true, [])    (* "corrFuncStride must be a positive integer": return *)
+        else if (int_max <=? l) || (int_max <=? o) || (int_max / (l + o + 1) <? s)
+        then (l, s, o, true, [])              (* repaired: stride * (length + offset) must stay within INT_MAX: return *)
         else (l, s, o, eo || el || es || negb (restart_out_freq mod s =? 0),
               [mkUse "parse_analysis: restart_out_freq % acf_stride" (nz s)])
       else (0, c_u_cfstride c, c_u_cfoff c, false, []) in
@@ -182,22 +184,32 @@ Definition colvar_step_uses (s : cvstate) (step_abs step_rel : Z) : list use :=
   (if 1 <? s_tsf s then [mkUse "calc_colvars: step % time_step_factor" (nz (s_tsf s))] else [])
   ++ (if s_runave s then [mkUse "calc_runave: step_relative % runave_stride" (nz (s_rastride s))] else []).
 
-(* calc_acf at the first analysis step and afterwards: sizes taken from corrFuncLength/Stride/Offset without
-   any check (recorded defects, see C10_corrfunc_sizes_refuted):
-   acf.resize(acf_length+1) [size_t wrap: nothing allocated; unchecked allocation], acf_stride list heads allocated one
-   by one, and, once the history holds (acf_length+acf_offset) mod 2^64 values, `for (i = 0; i < acf_offset; i++)
-   ++iterator` followed by writes through acf.begin(). *)
-Definition corrfunc_uses (host_bytes : Z) (s : cvstate) (history_size : Z) : list use :=
+(* calc_acf at the first analysis step and afterwards.  Repaired: acf.resize(acf_length+1) is inside try/catch (a
+   refused allocation is a memory error, not a death); once a history holds (acf_length+acf_offset) mod 2^64 values,
+   `for (i = 0; i < acf_offset; i++) ++iterator` must stay inside the history and the writes through acf.begin() need
+   a non-empty acf.  Both follow from the bound checked in parse_analysis (see corrfunc_safe); before the repair they
+   failed for wrapping values (C10_before_repair_refuted). *)
+Definition corrfunc_uses (s : cvstate) (history_size : Z) : list use :=
   if s_corr s then
     let n := (s_cflen s + 1) mod two64 in                 (* if (acf.size() < acf_length+1) acf.resize(acf_length+1) *)
     let m := (s_cflen s + s_cfoff s) mod two64 in         (* length at which a history is complete (and capped) *)
-    [mkUse "calc_acf: acf.resize(acf_length+1)" (alloc_ok host_bytes n 8);
-     mkUse "calc_acf: acf_stride history lists" (alloc_ok host_bytes (s_cfstride s) 24)]
-    ++ (if m <=? history_size then
-          [mkUse "calc_*_acf: skip acf_offset entries of the history" (s_cfoff s <=? history_size);
-           mkUse "calc_*_acf: *(acf.begin()) += ..." (1 <=? n)]
-        else [])
+    if m <=? history_size then
+      [mkUse "calc_*_acf: skip acf_offset entries of the history" (s_cfoff s <=? history_size);
+       mkUse "calc_*_acf: *(acf.begin()) += ..." (1 <=? n)]
+    else []
   else [].
+
+(* the state that the unrepaired parse_analysis accepted for given (length, stride, offset) *)
+Definition corr_state_old (len stride off : Z) : cvstate := mkCv 1 false 0 0 true len stride off.
+
+(* scriptedFunctionVectorSize (int): repaired: must be >= 1, x.vector1d_value.resize(size) inside try/catch *)
+Definition scripted_init (host_bytes : Z) (t : option tok) : initres Z :=
+  match parse_int TInt t with
+  | ZAbsent => mkRes 0 true []                 (* "no size specified for vector scripted function": return *)
+  | ZFail => mkRes 0 true []
+  | ZVal n => if n <? 1 then mkRes n true []
+              else mkRes n (negb (n * 8 <=? host_bytes)) [mkUse "colvar::init: x.vector1d_value.resize(size)" (0 <? n)]
+  end.
 
 (* ------------------------------------------------------------------------------------------------ *)
 (* colvarbias::init: outputFreq, timeStepFactor                                                     *)
@@ -220,8 +232,10 @@ Definition bias_step_uses (s : biasstate) (step_rel : Z) : list use :=
 (* metadynamics: newHillFrequency, gridsUpdateFrequency                                             *)
 (* ------------------------------------------------------------------------------------------------ *)
 
-Record metaconf := mkMetaConf { m_base : biasconf; m_newhill : option tok; m_usegrids : bool; m_gridsfreq : option tok }.
-Record metastate := mkMeta { sm_base : biasstate; sm_newhill : Z; sm_usegrids : bool; sm_gridsfreq : Z; sm_history : bool }.
+Record metaconf := mkMetaConf { m_base : biasconf; m_newhill : option tok; m_usegrids : bool; m_gridsfreq : option tok;
+                                m_replicas : bool; m_upfreq : option tok }.
+Record metastate := mkMeta { sm_base : biasstate; sm_newhill : Z; sm_usegrids : bool; sm_gridsfreq : Z; sm_history : bool;
+                             sm_replicas : bool; sm_upfreq : Z }.
 
 Definition meta_init (restart_out_freq : Z) (c : metaconf) : initres metastate :=
   let b := bias_init restart_out_freq (m_base c) in
@@ -229,7 +243,10 @@ Definition meta_init (restart_out_freq : Z) (c : metaconf) : initres metastate :
   let '(nh, e1) := getZ (parse_int TSize (m_newhill c)) 1000 1000 in
   let g0 := if 0 <? nh then nh else 0 in                   (* if (new_hill_freq > 0) { if (grids_freq == 0) grids_freq = new_hill_freq; } *)
   let '(gf, e2) := if m_usegrids c then getZ (parse_int TSize (m_gridsfreq c)) g0 g0 else (g0, false) in
-  mkRes (mkMeta (r_state b) nh (m_usegrids c) gf (0 <? nh)) (r_err b || e1 || e2) (r_uses b).
+  (* init_replicas_params: replicaUpdateFrequency (size_t, constructor value 0) must be non-zero: error + return *)
+  let '(uf, e3) := if m_replicas c then getZ (parse_int TSize (m_upfreq c)) 0 0 else (0, false) in
+  mkRes (mkMeta (r_state b) nh (m_usegrids c) gf (0 <? nh) (m_replicas c) uf)
+        (r_err b || e1 || e2 || e3 || (m_replicas c && (uf =? 0))) (r_uses b).
 
 (* update_bias / update_grid_data after the repairs:
      if (is_enabled(f_cvb_history_dependent) && (step % new_hill_freq) == 0 && ...)     [history <-> new_hill_freq > 0]
@@ -237,7 +254,16 @@ Definition meta_init (restart_out_freq : Z) (c : metaconf) : initres metastate :
 Definition meta_step_uses (s : metastate) (step_rel : Z) : list use :=
   bias_step_uses (sm_base s) step_rel
   ++ (if sm_history s then [mkUse "update_bias: step % new_hill_freq" (nz (sm_newhill s))] else [])
-  ++ (if sm_usegrids s && (0 <? sm_gridsfreq s) then [mkUse "update_grid_data: step % grids_freq" (nz (sm_gridsfreq s))] else []).
+  ++ (if sm_usegrids s && (0 <? sm_gridsfreq s) then [mkUse "update_grid_data: step % grids_freq" (nz (sm_gridsfreq s))] else [])
+  ++ (if sm_replicas s then
+        [mkUse "update: step % replica_update_freq" (nz (sm_upfreq s))]
+        (* read_replica_files (repaired): n_flush = new_hill_freq > 0 ? replica_update_freq / new_hill_freq + 1 : 1 *)
+        ++ (if 0 <? sm_newhill s then [mkUse "read_replica_files: replica_update_freq / new_hill_freq" (nz (sm_newhill s))] else [])
+      else []).
+
+(* before that repair the division was unconditional once a second replica is registered *)
+Definition meta_replica_div_old (s : metastate) : list use :=
+  if sm_replicas s then [mkUse "read_replica_files: replica_update_freq / new_hill_freq" (nz (sm_newhill s))] else [].
 
 (* the code before the repairs evaluated both moduli unconditionally *)
 Definition meta_step_uses_old (s : metastate) : list use :=
@@ -321,15 +347,17 @@ Definition coordnum_step_uses (s : pairstate) : list use :=
 
 Record opesconf := mkOpesConf { o_base : biasconf; o_pace : option tok; o_adaptive : bool; o_adstride : option tok;
                                 o_pmf : bool; o_pmfhist : option tok; o_trajfreq : option tok;
-                                o_u_adstride : Z }.
+                                o_u_adstride : Z;
+                                o_replicas : bool; o_nlist : bool; o_shared : option tok; o_u_shared : Z }.
 Record opesstate := mkOpes { so_base : biasstate; so_pace : Z; so_adaptive : bool; so_adstride : Z;
-                             so_pmf : bool; so_pmfhist : Z; so_trajfreq : Z }.       (* all long long *)
+                             so_pmf : bool; so_pmfhist : Z; so_trajfreq : Z;      (* long long *)
+                             so_replicas : bool; so_nlist : bool; so_shared : Z  (* size_t; sharedFreq, default outputFreq *) }.
 
 (* after the repairs: newHillFrequency must be positive (error + return right after it is read) *)
 Definition opes_init (restart_out_freq cv_traj_freq : Z) (c : opesconf) : initres opesstate :=
   let b := bias_init restart_out_freq (o_base c) in
   let '(pace, e1) := getZ (parse_int TStep (o_pace c)) 0 0 in
-  if pace <=? 0 then mkRes (mkOpes (r_state b) pace false 0 false 0 0) true (r_uses b)
+  if pace <=? 0 then mkRes (mkOpes (r_state b) pace false 0 false 0 0 false false 0) true (r_uses b)
   else
     let '(ads, e2, ret, u2) :=
       if o_adaptive c then
@@ -338,11 +366,15 @@ Definition opes_init (restart_out_freq cv_traj_freq : Z) (c : opesconf) : initre
         if s1 <? pace then (s1, true, true, [])                 (* adaptiveSigmaStride < newHillFrequency: return *)
         else (s1, es, false, [mkUse "showInfo: adaptive_sigma_stride / m_pace" (nz pace)])
       else (0, false, false, []) in
-    if ret then mkRes (mkOpes (r_state b) pace (o_adaptive c) ads false 0 0) true (r_uses b)
+    if ret then mkRes (mkOpes (r_state b) pace (o_adaptive c) ads false 0 0 false false 0) true (r_uses b)
     else
       let '(ph, e3) := if o_pmf c then getZ (parse_int TStep (o_pmfhist c)) 0 0 else (0, false) in
       let '(tf, e4) := getZ (parse_int TStep (o_trajfreq c)) 0 cv_traj_freq in
-      mkRes (mkOpes (r_state b) pace (o_adaptive c) ads (o_pmf c) ph tf) (r_err b || e1 || e2 || e3 || e4) (r_uses b ++ u2).
+      (* sharedFreq is read only with multipleReplicas; otherwise the member keeps its (uninitialised) content *)
+      let '(sh, e5) := if o_replicas c then getZ (parse_int TSize (o_shared c)) (o_u_shared c) (s_outfreq (r_state b))
+                       else (o_u_shared c, false) in
+      mkRes (mkOpes (r_state b) pace (o_adaptive c) ads (o_pmf c) ph tf (o_replicas c) (o_nlist c) sh)
+            (r_err b || e1 || e2 || e3 || e4 || e5) (r_uses b ++ u2).
 
 (* update_opes, save_state (repaired: restart_out_freq > 0 && ...), computePMF history, writeTrajBuffer *)
 Definition opes_step_uses (s : opesstate) (restart_out_freq : Z) (step_rel : Z) : list use :=
@@ -350,7 +382,13 @@ Definition opes_step_uses (s : opesstate) (restart_out_freq : Z) (step_rel : Z) 
   ++ [mkUse "update_opes: step % m_pace" (nz (so_pace s))]
   ++ (if 0 <? restart_out_freq then [mkUse "save_state: step % restart_out_freq" (nz restart_out_freq)] else [])
   ++ (if so_pmf s && (0 <? so_pmfhist s) then [mkUse "update: step % m_pmf_hist_freq" (nz (so_pmfhist s))] else [])
-  ++ (if 0 <? so_trajfreq s then [mkUse "writeTrajBuffer: step % m_traj_output_frequency" (nz (so_trajfreq s))] else []).
+  ++ (if 0 <? so_trajfreq s then [mkUse "writeTrajBuffer: step % m_traj_output_frequency" (nz (so_trajfreq s))] else [])
+  (* calculate_opes (repaired): (comm == multiple_replicas) && (shared_freq > 0) && step % shared_freq == 0 *)
+  ++ (if so_nlist s && so_replicas s && (0 <? so_shared s)
+      then [mkUse "calculate_opes: step % shared_freq" (nz (so_shared s))] else []).
+
+Definition opes_shared_use_old (s : opesstate) : list use :=
+  if so_nlist s && so_replicas s then [mkUse "calculate_opes: step % shared_freq" (nz (so_shared s))] else [].
 
 (* ------------------------------------------------------------------------------------------------ *)
 (* Grids: colvar_grid::init_from_colvars / init_from_boundaries / setup                              *)
@@ -488,3 +526,57 @@ Definition parse_config (cvs : list block) (biases_by_type : list (list block)) 
 (* ------------------------------------------------------------------------------------------------ *)
 
 Definition verdict_of {S} (r : initres S) : verdict := if r_err r then Reject else Accept.
+
+(* ------------------------------------------------------------------------------------------------ *)
+(* The guard table itself: which (source file, keyword) pairs the definitions above cover, and which are      *)
+(* deliberately left out, with the reason.  props/C10/guardscan.py regenerates coq/Gen/GenGuards.v from the     *)
+(* current source tree (every get_keyval destination used as divisor, modulus, size, loop bound, index or        *)
+(* integer cast); C10_guard_table_covers_source re-checks on every run that nothing it finds is missing here.    *)
+(* ------------------------------------------------------------------------------------------------ *)
+
+Definition guard_covered : list (string * string * string) := [
+  ("colvarmodule.cpp", "colvarsTrajFrequency", "module_init / module_step_uses");
+  ("colvarmodule.cpp", "colvarsRestartFrequency", "module_init / module_step_uses, opes_step_uses");
+  ("colvar.cpp", "timeStepFactor", "colvar_init / colvar_step_uses");
+  ("colvar.cpp", "runAveStride", "colvar_init / colvar_step_uses");
+  ("colvar.cpp", "corrFuncStride", "colvar_init / corrfunc_uses");
+  ("colvar.cpp", "corrFuncLength", "colvar_init / corrfunc_uses");
+  ("colvar.cpp", "corrFuncOffset", "colvar_init / corrfunc_uses");
+  ("colvar.cpp", "scriptedFunctionVectorSize", "scripted_init");
+  ("colvar.cpp", "width", "grid_init (check_width)");
+  ("colvargrid_def.h", "width", "grid_init");
+  ("colvarbias.cpp", "outputFreq", "bias_init / bias_step_uses, abf_init");
+  ("colvarbias.cpp", "timeStepFactor", "bias_init / bias_step_uses");
+  ("colvarbias_abf.cpp", "historyFreq", "abf_init / abf_step_uses");
+  ("colvarbias_meta.cpp", "newHillFrequency", "meta_init / meta_step_uses");
+  ("colvarbias_meta.cpp", "gridsUpdateFrequency", "meta_init / meta_step_uses");
+  ("colvarbias_meta.cpp", "replicaUpdateFrequency", "meta_init / meta_step_uses");
+  ("colvarbias_opes.cpp", "newHillFrequency", "opes_init / opes_step_uses");
+  ("colvarbias_opes.cpp", "adaptiveSigmaStride", "opes_init");
+  ("colvarbias_opes.cpp", "pmfHistoryFrequency", "opes_init / opes_step_uses");
+  ("colvarbias_opes.cpp", "printTrajectoryFrequency", "opes_init / opes_step_uses");
+  ("colvarbias_opes.cpp", "sharedFreq", "opes_init / opes_step_uses");
+  ("colvarbias_restraint.cpp", "targetNumSteps", "moving_init / moving_step_uses");
+  ("colvarbias_restraint.cpp", "width", "histrestr_init");
+  ("colvarcomp_coordnums.cpp", "pairListFrequency", "coordnum_init / coordnum_step_uses") ].
+
+Definition guard_exempt : list (string * string * string) := [
+  ("colvarbias_abf.cpp", "pABFintegrateFreq", "guarded at its only use: pabf_freq && step % pabf_freq");
+  ("colvarbias_abf.cpp", "sharedFreq", "guarded at both uses: shared_freq && ... % shared_freq");
+  ("colvarbias_alb.cpp", "UpdateFrequency", "divisor of a floating-point division only; must be > 0 (checked in init)");
+  ("colvarbias_alb.cpp", "updateCalls", "state-file keyword; floating-point divisions only");
+  ("colvarbias_alb.cpp", "couplingAccum", "false match of the scanner ((int) num_variables() on the same line)");
+  ("colvarbias_histogram_reweight_amd.cpp", "historyFreq", "guarded: b_history_files = (history_freq > 0); bias not configurable in the simulator");
+  ("colvarbias_restraint.cpp", "accumulatedWork", "false match of the scanner (declaration with an int argument)");
+  ("colvarbias_restraint.cpp", "stage", "state-file keyword (index into lambda_schedule): property C11");
+  ("colvarcomp_neuralnetwork.cpp", "output_component", "checked against the size of the output layer (repaired); swept by the check, no model");
+  ("colvarcomp_torchann.cpp", "m_output_index", "libtorch build only (not compiled here)");
+  ("colvarcomp_neuralnetwork.cpp", "m_output_index", "same member as output_component");
+  ("colvarcomp_torchann.cpp", "output_component", "same member name as neuralNetwork's");
+  ("colvarcomp_protein.cpp", "vectorNumber", "loop ends at the first failed extraction (repaired); swept by the check, no model");
+  ("colvargrid_def.h", "sizes", "state-file keyword: property C11");
+  ("colvargrid_def.h", "widths", "state-file keyword: property C11") ].
+
+Definition guard_known (g : string * string * string) : bool :=
+  let '(f, k, _) := g in
+  existsb (fun e => let '(f', k', _) := e in String.eqb f f' && String.eqb k k') (guard_covered ++ guard_exempt).
